@@ -272,5 +272,6 @@ func TestSchedC07(t *testing.T) { runSched(t, "C07", []string{"sched-refresh"}) 
 func TestSchedC06(t *testing.T) {
 	runSched(t, "C06", []string{"sched-lockorder", "sched-lockorder", "sched-growth", "sched-refresh"})
 }
+func TestSchedC20(t *testing.T) { runSched(t, "C20", []string{"sched-addr"}) }
 func TestSchedC08(t *testing.T) { runSched(t, "C08", []string{"sched-fallback"}) }
 func TestSchedC12(t *testing.T) { runSched(t, "C12", []string{"sched-stream"}) }
